@@ -449,13 +449,67 @@ func checkVerifier(c *Ctx, fn *ssa.Function) {
 			}
 		}
 	}
+	// ... or (hashLen, prefixes, err) with the two accepted encodings as the two byte-slice fields of one record
+	var prefRec ssa.Value
+	if info == nil {
+		for _, call := range callsIn(fn) {
+			cv, ok := call.(*ssa.Call)
+			if !ok {
+				continue
+			}
+			callee := cv.Call.StaticCallee()
+			if callee == nil || !w.InRepo(callee) || callee.Signature.Results().Len() != 3 || errorResultIndex(callee) != 2 {
+				continue
+			}
+			if st, isStruct := callee.Signature.Results().At(1).Type().Underlying().(*types.Struct); isStruct && st.NumFields() == 2 && isByteSeq(st.Field(0).Type()) && isByteSeq(st.Field(1).Type()) {
+				info, prefRec = cv, extractOf(cv, 1)
+			}
+		}
+	}
 	if info == nil {
 		und("hash-info call returning (hashLen, prefix1, prefix2, err)")
 		return
 	}
-	hLen, p1, p2 := extractOf(info, 0), extractOf(info, 1), extractOf(info, 2)
+	hLen := extractOf(info, 0)
+	var p1, p2, errInfo ssa.Value
+	if prefRec != nil {
+		errInfo = extractOf(info, 2)
+	} else {
+		p1, p2, errInfo = extractOf(info, 1), extractOf(info, 2), extractOf(info, 3)
+	}
+	// prefixRole: v is the first (1) or the second (2) accepted digest-identifier encoding handed back by the hash info
+	prefixRole := func(v ssa.Value) int {
+		if v == nil {
+			return 0
+		}
+		v = throughCell(strip(v))
+		if prefRec == nil {
+			switch {
+			case p1 != nil && v == p1:
+				return 1
+			case p2 != nil && v == p2:
+				return 2
+			}
+			return 0
+		}
+		switch x := v.(type) {
+		case *ssa.Field:
+			if throughCell(strip(x.X)) == prefRec {
+				return x.Field + 1
+			}
+		case *ssa.UnOp:
+			if fa, ok := x.X.(*ssa.FieldAddr); ok {
+				if a, isAlloc := fa.X.(*ssa.Alloc); isAlloc {
+					if stores, ok := cellStores(a); ok && len(stores) == 1 && throughCell(strip(stores[0].Val)) == prefRec && len(FieldStores(a.Parent(), a)) == 0 {
+						return fa.Field + 1
+					}
+				}
+			}
+		}
+		return 0
+	}
 	c.Check(w.Expr(info.Call.Args[0]) == "p1" && w.Expr(info.Call.Args[1]) == "call<builtin:len>(p2)", "R4.verifier", "verifier|hash info for this hash and digest length", w.Pos(info.Pos()), "pkcs1v15HashInfo(hash, len(hashed))", "hash info is not requested for the given hash and the digest's length")
-	c.Check(w.ErrEdgeEnds(fn, extractOf(info, 3)), "R4.verifier", "verifier|hash info error returned", w.Pos(info.Pos()), "error edge returns", "an unsupported hash / wrong digest length does not stop verification")
+	c.Check(w.ErrEdgeEnds(fn, errInfo), "R4.verifier", "verifier|hash info error returned", w.Pos(info.Pos()), "error edge returns", "an unsupported hash / wrong digest length does not stop verification")
 	// k
 	var k ssa.Value
 	for _, b := range fn.Blocks {
@@ -493,9 +547,9 @@ func checkVerifier(c *Ctx, fn *ssa.Function) {
 			return "k"
 		case v == hLen:
 			return "hLen"
-		case la != nil && la == p1:
+		case la != nil && prefixRole(la) == 1:
 			return "len1"
-		case la != nil && la == p2:
+		case la != nil && prefixRole(la) == 2:
 			return "len2"
 		}
 		return ""
@@ -802,7 +856,7 @@ func checkVerifier(c *Ctx, fn *ssa.Function) {
 	}{{"or1", "len1", p1}, {"or2", "len2", p2}} {
 		okCmp := find(spec.via, func(l leaf) bool {
 			lo, hi, o, ok := sliceCmp(l)
-			return ok && o == spec.p && lo.equal(mk(0, map[string]int64{"k": 1, spec.ln: -1, "hLen": -1})) && hi.equal(mk(0, map[string]int64{"k": 1, "hLen": -1}))
+			return ok && prefixRole(o) == i+1 && lo.equal(mk(0, map[string]int64{"k": 1, spec.ln: -1, "hLen": -1})) && hi.equal(mk(0, map[string]int64{"k": 1, "hLen": -1}))
 		})
 		okSep := find(spec.via, func(l leaf) bool {
 			ix, v, ok := byteAt(l)
@@ -989,6 +1043,7 @@ func checkVerifierHelpers(c *Ctx, verifier, info, pad *ssa.Function) {
 	if info != nil {
 		c.Saw(info)
 		f := w.Facts(info)
+		nRes := info.Signature.Results().Len() // (hashLen, prefix1, prefix2, err) or (hashLen, prefixes, err)
 		// hashLen = hash.Size(); inLen != hashLen -> error; both lookups comma-ok with !ok -> error
 		okSize := false
 		for _, call := range callsTo(info, "(crypto.Hash).Size") {
@@ -1015,12 +1070,12 @@ func checkVerifierHelpers(c *Ctx, verifier, info, pad *ssa.Function) {
 				nAfter := 0
 				reach := ReachableAvoiding(lk, nil)
 				for _, r := range liveReturns(info) {
-					if !reach(r) || len(r.Results) != 4 {
+					if !reach(r) || len(r.Results) != nRes {
 						continue
 					}
 					nAfter++
 					mayNil := false
-					for _, lf := range w.Leaves(r.Results[3], r) {
+					for _, lf := range w.Leaves(r.Results[nRes-1], r) {
 						if !w.NonNil(lf.Val, lf.Facts) {
 							mayNil = true
 						}
@@ -1067,6 +1122,27 @@ func checkVerifierHelpers(c *Ctx, verifier, info, pad *ssa.Function) {
 		}
 		nPair := 0
 		for _, r := range liveReturns(info) {
+			if nRes == 3 && len(r.Results) == 3 {
+				// the record handed back is the element looked up for this hash (its two fields are the two encodings);
+				// a zero record goes with the direct-signing case and the errors
+				for _, l1 := range w.Leaves(r.Results[1], r) {
+					v := throughCell(strip(l1.Val))
+					if cst, isConst := v.(*ssa.Const); isConst && cst.Value == nil {
+						continue // zero record
+					}
+					if ld, isLd := v.(*ssa.UnOp); isLd {
+						if al, isAl := ld.X.(*ssa.Alloc); isAl && len(FieldStores(al.Parent(), al)) == 0 {
+							if sts, okS := cellStores(al); okS && len(sts) == 0 {
+								continue // zero record
+							}
+						}
+					}
+					nPair++
+					o := origin(l1.Val)
+					c.Check(o != "", "R4.verifier", "hash info|the two identifiers are the two looked-up encodings", w.Pos(r.Pos()), "the element of "+o+" for this hash", "the identifiers handed to the verifier are not the element of the digest-identifier table for this hash: "+w.Short(l1.Val))
+				}
+				continue
+			}
 			if len(r.Results) != 4 {
 				continue
 			}
@@ -1094,7 +1170,7 @@ func checkVerifierHelpers(c *Ctx, verifier, info, pad *ssa.Function) {
 				return ok && bin.Op == token.NEQ && l.Pol && w.Expr(bin.X) == "p1" && strings.Contains(w.Expr(bin.Y), "crypto.Hash).Size")
 			}) {
 				okLen = true
-				for _, lf := range w.Leaves(r.Results[3], r) {
+				for _, lf := range w.Leaves(r.Results[nRes-1], r) {
 					if !w.NonNil(lf.Val, lf.Facts) {
 						okLen = false
 					}
